@@ -1,6 +1,6 @@
 package config_test
 
-// Finding (property C29), open. Run with:
+// Finding (property C29), fixed, open. Run with:
 //   /verif/findings/run.sh C29_commit_resurrects_deleted_config_test.go overlord/configstate/config 'TestFindingC29.*'
 // Obligation: overlord/configstate/config.(*Transaction).Commit#guard#call:(*State).Get[decode-target-empty]@0
 //
